@@ -133,7 +133,7 @@ def clip_sides(bad, win, shape):
     return out
 
 
-def compare_segment(R, full, win, inside, band, prefix, what, insig=''):
+def compare_segment(R, full, win, inside, band, prefix, what, insig='', clipsig=''):
     """Segment raster against analytic membership; distinguishes truncation by the local window from a wrong shape."""
     bad = (full != inside) & ~band
     if not bad.any():
@@ -145,7 +145,7 @@ def compare_segment(R, full, win, inside, band, prefix, what, insig=''):
     if clipped.any():
         idx = np.argwhere(clipped)[:4].tolist()
         for ax, side, p in clip_sides(clipped, win, full.shape):
-            ok = R.expect(False, f'{prefix}-clipped:{side}:{p}',
+            ok = R.expect(False, f'{prefix}-clipped{clipsig}:{side}:{p}',
                           f'{what}: {int(clipped.sum())} samples inside the analytic shape lie beyond the {side}{ax} side of the '
                           f'local window {win} and are missing from the segment, e.g. (row, col) {idx}')
     wrong = bad & inwin
@@ -277,6 +277,7 @@ def run_hex(case, seed, R):
     nband = 0
     count = np.zeros((n0, n1), dtype=int)
     union = np.zeros((n0, n1), dtype=bool)
+    allband = np.zeros((n0, n1), dtype=bool)
     h = dx * H2
     xlo, xhi, ylo, yhi = x[0, 0], x[0, -1], y[0, 0], y[-1, 0]
     area = math.sqrt(3) / 2 * D * D
@@ -285,6 +286,7 @@ def run_hex(case, seed, R):
         d = poly_dist(x, y, 6, rv, c, angle)
         band = np.abs(d) <= tol
         nband += int(band.sum())
+        allband |= band
         inside = d <= 0
         compare_segment(R, fulls[k], S['wins'][k], inside, band, 'hex:segment', f'segment id {i} (centre {c})')
         count += fulls[k]
@@ -305,8 +307,11 @@ def run_hex(case, seed, R):
         except Exception:   # noqa
             okc = False
         R.expect(okc, 'hex:local-coords', f'segment id {i}: local_coords are not (x, y)[window] - centre')
-    R.expect(int(count.max(initial=0)) <= 1, 'hex:overlap',
-             f'{int((count > 1).sum())} samples belong to more than one segment, e.g. {np.argwhere(count > 1)[:3].tolist()}')
+    # with zero gap two hexagons share an edge; samples exactly on it (inside the band) are don't-care
+    over = (count > 1) & ~allband
+    R.expect(not over.any(), 'hex:overlap',
+             f'{int(over.sum())} samples outside the band belong to more than one segment, e.g. {np.argwhere(over)[:3].tolist()}')
+    R.outcome('shared-edge-samples' if ((count > 1) & allband).any() else 'no-shared-edge-samples')
     R.expect(np.array_equal(S['amp'], union), 'hex:amp!=union',
              f'amp differs from the union of the segment masks at {int((S["amp"] != union).sum())} samples')
     R.nontrivial(union.any() and not union.all())
@@ -324,6 +329,11 @@ def run_hex_opd(case, seed, R):
         return
     ap, x, y, ids, centers, D = S['ap'], S['x'], S['y'], S['ids'], S['centers'], S['D']
     kind, norm = case['basis'], case['norm']
+    if any(0 in window_shape(w) for w in S['wins']):
+        # a segment lies completely off the grid: it has no samples, per-segment OPD has no meaning for it
+        # (prepare_opd_bases raises IndexError on the empty local grid -- reported as a note, outside the statement)
+        R.outcome('opd:skipped:segment-off-grid')
+        return
     orders = [tuple(o) for o in (ORDERS_XY if kind == 'xy' else ORDERS_RT)]
     bf = basis_xy if kind == 'xy' else basis_rt
     nm, ns = len(orders), len(ids)
@@ -500,7 +510,9 @@ def run_keystone(case, seed, R):
             nband += int((band & (r >= inner - tol) & (r <= outer + tol)).sum())
             compare_segment(R, fulls[k], wins[k], inside, band, 'keystone:segment',
                             f'keystone {k - 1} (ring radii {inner:.4g}..{outer:.4g}, angles {np.degrees(lo):.4g}..{np.degrees(hi):.4g} deg)',
-                            insig=':negative-rotation' if ro < 0 else '')
+                            insig=':negative-rotation' if ro < 0 else '',
+                            clipsig=':arc-crosses-axis' if any(lo < q * np.pi / 2 < hi and abs(q * np.pi / 2 - mid) > 1e-9
+                                                               for q in range(-6, 12)) else '')
             if fits:
                 near = (r >= inner - h) & (r <= outer + h) & ((dl <= arc / 2) | (r * np.sin(np.minimum(dl - arc / 2, np.pi / 2)) <= h))
                 nb = int((near & ((np.abs(r - inner) <= h) | (np.abs(r - outer) <= h) | (e_ang <= h))).sum())
@@ -516,12 +528,13 @@ def run_keystone(case, seed, R):
             allband |= (np.abs(np.abs(v) - ag / 2) <= tol) & (u > -tol)
     count = np.sum(fulls, axis=0)
     union = count > 0
-    R.expect(int(count.max(initial=0)) <= 1, 'keystone:overlap',
-             f'{int((count > 1).sum())} samples belong to more than one segment, e.g. {np.argwhere(count > 1)[:3].tolist()}')
+    over = (count > 1) & ~allband
+    R.expect(not over.any(), 'keystone:overlap',
+             f'{int(over.sum())} samples outside the band belong to more than one segment, e.g. {np.argwhere(over)[:3].tolist()}')
     amp = S['amp']
     R.expect(not (amp & ~union).any(), 'keystone:amp-outside-segments',
              f'{int((amp & ~union).sum())} transmitting samples belong to no segment, e.g. {np.argwhere(amp & ~union)[:3].tolist()}')
-    R.expect(not (amp & (count != 1)).any(), 'keystone:amp-not-exactly-one', 'a transmitting sample is not in exactly one segment')
+    R.expect(not (amp & (count != 1) & ~allband).any(), 'keystone:amp-not-exactly-one', 'a transmitting sample is not in exactly one segment')
     # transmitting = in a segment and not in a gap strip
     want = union & ~strips
     bad = (amp != want) & ~allband
@@ -540,6 +553,10 @@ def run_keystone_opd(case, seed, R):
         return
     ap, fulls = S['ap'], S['fulls']
     kind = case['basis']
+    if any(min(window_shape(w)) < 2 for w in S['wins']):
+        # a window clamped to fewer than 2 samples: the implementation-defined normalisation radius (window extent) is 0
+        R.outcome('opd:skipped:degenerate-window')
+        return
     if kind == 'xy':
         orders = [tuple(o) for o in ORDERS_XY]
         out = R.call(ap.prepare_opd_bases, basis_xy, orders, basis_xy, orders, rotate_xyaxes=True,
@@ -768,10 +785,8 @@ def run_circle(case, seed, R):
                 R.expect(bool((m[rr >= rad + hp + t] == 0).all()), f'{sig}:exterior', 'samples more than half a pixel outside the radius are not 0')
                 ramp = np.clip((rad + hp - rr) / (2 * hp), 0, 1)
                 R.expect_close(m, ramp, 1e-9, f'{sig}:ramp', f'truecircle({rad}): linear one-pixel ramp centred on the radius')
-                z = np.zeros((n, n), dtype=bool)
                 for e, v in d4_views(symmetric_part(m, n, n)).items():
                     R.expect(bool(np.abs(v - symmetric_part(m, n, n)).max() <= 1e-12), f'{sig}:symmetry:{e}', f'truecircle({rad}) not invariant under {e}')
-                del z
                 R.nontrivial()
             if prev is not None:
                 R.expect(bool((m >= prev - 1e-12).all()), f'{sig}:monotone', f'truecircle shrinks somewhere when the radius grows to {rad}')
@@ -849,7 +864,8 @@ def run_polygon(case, seed, R):
     for rs in POLY_R:
         rad = rs * dx
         kw = {} if centred and case.get('defaults') else {'center': (x0, y0), 'rotation': rot}
-        m = as_mask(R, R.call(geometry.regular_polygon, sides, rad, x, y, **kw), (n0, n1), sig, f'regular_polygon({sides}, {rad})')
+        m = as_mask(R, R.call(geometry.regular_polygon, sides, rad, x, y, sig=sig + ':exception', **kw), (n0, n1), sig,
+                    f'regular_polygon({sides}, {rad})')
         d = poly_dist(x, y, sides, rad, (x0, y0), rot)
         band = np.abs(d) <= BAND * (L + rad)
         inside = d <= 0
